@@ -32,8 +32,9 @@ RULE = ("Hypothesis-generated slice descriptions (1-5 nodes VM/Container/Switch 
         "0-3 components each from all 13 catalogue models, 0-3 facilities, 0-5 services of 11 types incl. "
         "FABNetv4Ext/v6Ext and several PortMirror services per site whose mirrored port is inside/outside the "
         "slice), each built in 2-6 creation orders (permutation of nodes+facilities, permutation of services, "
-        "services created late or as early as possible); attributes collected from the validated topology and "
-        "from its serialised model (NetworkxASM) are compared with a direct tally of the description. "
+        "services created late or as early as possible); attributes collected from the validated topology (every "
+        "order) and from its serialised model (NetworkxASM, first two orders) are compared with a direct tally of "
+        "the description, across orders and across the two sources. "
         "Non-trivial: nodes in >= 2 sites, >= 2 effectively different creation sequences, and at least one of "
         "{a site with both an in-slice and an out-of-slice mirror service, an Ext service, a facility}. "
         "Distinct by hash of the case.")
@@ -131,7 +132,8 @@ SIG_MIRROR_POP = "C11/authz/tally/mirror-site/missing/in-slice-after-out-of-slic
 
 # ----------------------------------------------------------------------------------------------- generator
 
-_model = st.sampled_from(sorted(MODELS) + ["SmartNIC_ConnectX_6", "SmartNIC_ConnectX_5", "SmartNIC_BlueField_2_ConnectX_6"] * 2 +
+_model = st.sampled_from(sorted(MODELS) +
+                         ["SmartNIC_ConnectX_6", "SmartNIC_ConnectX_5", "SmartNIC_BlueField_2_ConnectX_6"] * 2 +
                          ["FPGA_Xilinx_U280", "FPGA_Xilinx_SN1022", "SharedNIC_ConnectX_6", "SharedNIC_OpenStack_vNIC"])
 _nic2 = st.sampled_from(["SmartNIC_ConnectX_6", "SmartNIC_ConnectX_5", "SmartNIC_BlueField_2_ConnectX_6",
                          "FPGA_Xilinx_U280"])
